@@ -20,7 +20,7 @@ Pieces == << Cp("%%"), Cp("%a"), Cp("%b"), Cp("%c"), Cp("%d"), Cp("%D"), Cp("%f"
              Cp("%A@"), Cp("%CH"), Cp("%TY"), Cp("%{fid}"), Cp("%{projid}"), Cp("%{mirror-count}"),
              Cp("%{stripe-count}"), Cp("%{stripe-size}"), Cp("%{xattr:foo}"),
              Cp("\\a"), Cp("\\b"), Cp("\\c"), Cp("\\f"), Cp("\\n"), Cp("\\r"), Cp("\\t"), Cp("\\v"), Cp("\\0"),
-             Cp("\\\\"), Cp("\\101"), Cp("\\377"), Cp("\\q"), Cp("\\"), Cp("\\+12"), Cp("\\-1"), Cp("\\ 12"), Cp("\\x41"),
+             Cp("\\\\"), Cp("\\101"), Cp("\\377"), Cp("\\q"), Cp("\\"), Cp("\\+12"), Cp("\\-1"), Cp("%{FID}"), Cp("%{Fid}"), Cp("%{ProjID}"), Cp("%{XATTR:foo}"), Cp("%{xattr:Foo}"), Cp("%{stripe_count}"), Cp("%P "), Cp("\\N"), Cp("%a@"), Cp("\\ 12"), Cp("\\x41"),
              Cp("abc"), Cp(" "), Cp("1"), Cp("{"), Cp("%q"), Cp("%"), Cp("%{"), Cp("%A") >>
 
 NSym == IF Mode = "chars" THEN Len(Alphabet) ELSE Len(Pieces)
